@@ -55,6 +55,13 @@ PTagPut(r, img, c) ==
                   ELSE OverwriteBad(conf, before, cur, r, img))
   /\ UNCHANGED <<conf, mode, before, repB>>
 
+\* the completeness of a tag's image changed although the tag did not move (a blob it references
+\* arrived with another copy into the same repository)
+PCompl(r, c) ==
+  /\ mode # "" /\ Has(cur, r)
+  /\ cur' = SetTag(cur, r, Img(cur, r), c)
+  /\ UNCHANGED <<conf, mode, before, repB, puts, bad>>
+
 PEnd(m, exit, tags, repos, lost, nwr, nmut) ==
   /\ mode = m
   /\ mode' = "" /\ before' = {} /\ repB' = {} /\ cur' = {} /\ puts' = {}
